@@ -78,6 +78,7 @@ impl Sub for Crash {
             w.wait_merging_threads().or_fail("wait_merging_threads_failed")?;
         }
         let log = sd.take_log();
+        cx.label_if(env.stats.commits_during_merge_end > 0, "commit_held_while_merge_ends");
         let spans = env.commit_spans.clone();
         let models = env.models.clone();
         drop(env);
